@@ -100,6 +100,12 @@ def corpus(rng, quick):
     for c in common.load_corpus("engine"):
         out.append(S(c["name"], c["machine"], c["input"], {k: [tuple(o) for o in v] for k, v in c["plans"].items()},
                      {k: v for k, v in c.get("delays", {}).items()}))
+    # the same fan-outs under an execution time limit: exercised by the "stall" schedules (back stop, late events)
+    for sc in list(out):
+        if sc.name in ("par2-fail0", "par3-fail1", "par3-ok", "par-failstate-vs-wait", "par-fail-vs-nested", "map3-mc1-fail",
+                       "map3-mc2-ok", "nested-ok", "seq-task-wait", "par-empty-map-branch"):
+            out.append(S(sc.name + "-ttl", dict(json.loads(json.dumps(sc.machine)), TimeoutSeconds=20), sc.data, sc.plans, sc.delays,
+                         sm_type=sc.sm_type, extra=dict(sc.extra)))
     # patch the map-fail scenarios: the worker fails on one item
     for s in out:
         fi = s.extra.get("fail_item")
@@ -330,15 +336,32 @@ def run_property(chk, prop, laws, quick_gen=120, thorough_gen=3000, scns=None, n
     for scn in scns:
         hand = not scn.name.startswith("gen")
         scheds = ["canonical"] + ["random"] * (n_rand if hand else 1)
+        if "TimeoutSeconds" in scn.machine:
+            # the broker stalls: nothing is delivered for over a minute of virtual time, at a random moment or right
+            # after the terminal notification, while timers and heartbeats (the once-a-minute back stop) keep firing
+            scheds += ["stall"] * max(4, n_rand)
         for kind in scheds:
             mon = Monitor(scn)
             s, ea, pl = start_scenario(scn)
             mon(s, ea, None)
             g = None
+            stall_at = None if kind != "stall" else chk.rng.choice(["terminal", "terminal", chk.rng.randrange(0, 14)])
+            stall_until = None
             while s.steps < 2500:
                 if explore.terminal_seen(s, ea) and g is None:
                     g = s.steps + 40
-                if g is not None and s.steps >= g:
+                    if stall_at == "terminal":
+                        stall_at = s.steps
+                if stall_at is not None and stall_at != "terminal" and s.steps >= stall_at and stall_until is None:
+                    stall_until = simmod.CLOCK.ms + chk.rng.choice([65000, 125000]) + 1000 * scn.machine["TimeoutSeconds"]
+                if stall_until is not None and simmod.CLOCK.ms < stall_until:
+                    tm = [x for x in s.enabled() if x[0] == "timer"]
+                    if tm:
+                        s.do(tm[0])
+                        mon(s, ea, tm[0])
+                        continue
+                    stall_until = simmod.CLOCK.ms      # nothing is armed: the stall is over
+                if g is not None and s.steps >= g and (stall_until is None or simmod.CLOCK.ms >= stall_until):
                     break
                 if kind == "canonical":
                     st = s.canonical_step()
